@@ -1231,4 +1231,24 @@ theorem assign_ok_getSeq {b : Block} (hw : WF b) (o : Nat) (h : Option Handle) (
     have : o < b.seqFor.length := by rw [hw.slen]; exact hlt
     simp [Block.getSeq, assignOkBlock, List.getElem?_set_self this]
 
+/-! ### `empty()` — the gate of block deletion -/
+
+theorem isEmpty_attr {b : Block} (h : b.isEmpty = true) (o : Nat) (a : Attr) (ha : b.attrAt o = some a) :
+    ∃ hd, a.handle = some hd ∧ lowerH hd = windowsReservedHandle := by
+  unfold Block.isEmpty at h
+  rw [List.all_eq_true] at h
+  unfold Block.attrAt at ha
+  cases hb : b.allocs[o]? with
+  | none => simp [hb] at ha
+  | some v =>
+    cases v with
+    | none => simp [hb] at ha
+    | some i =>
+      simp only [hb] at ha
+      have := h (some i) (List.mem_of_getElem? hb)
+      simp only [ha] at this
+      cases hh : a.handle with
+      | none => simp [hh] at this
+      | some hd => simp [hh] at this; exact ⟨hd, rfl, this⟩
+
 end CalicoVerif.C21
